@@ -113,6 +113,7 @@ def pipeline_case(case):
 
     app, entries = case[0], case[1]
     shared = len(case) > 2 and case[2] == "shared-routes-module"
+    upsert_shared = len(case) > 2 and case[2] == "upserted-into-one-routes-module"
     d = tempfile.mkdtemp(prefix="cddvc_c16_")
     try:
         with contextlib.redirect_stderr(io.StringIO()), contextlib.redirect_stdout(io.StringIO()):
@@ -137,6 +138,11 @@ def pipeline_case(case):
                     with open(rp, "a") as fh:
                         fh.write("\n\n".join(([head] if head else [""]) + [to_code(r_) for r_ in routes]))
                         fh.write("\n")
+                    rps = [rp]
+                elif upsert_shared:
+                    # the models are upserted one after the other into the SAME routes module by the real upsert_routes
+                    rp = os.path.join(d, "routes.py")
+                    upsert_routes(app=app, routes=routes, routes_path=rp, route=route, primary_key=primary_key)
                     rps = [rp]
                 else:
                     upsert_routes(app=app, routes=routes, routes_path=rp, route=route, primary_key=primary_key)
@@ -198,6 +204,8 @@ def bounded(tier):
                 entries.append((name, cols, pk, CRUDS[(ci + j) % len(CRUDS)], "%s/%s" % (("/api", "/api/v1", "")[(k + j) % 3], name.lower())))
             pcases.append((("rest_api", "app", "my_bottle")[k % 3], entries))
             if len(entries) > 1:
+                # the same models upserted one by one into one routes module (the second upsert appends to an existing file)
+                pcases.append((("rest_api", "app", "my_bottle")[k % 3], entries, "upserted-into-one-routes-module"))
                 # the same models with all their routes in one module, overlapping CRUD letters
                 pcases.append((("rest_api", "app", "my_bottle")[k % 3], [e[:3] + (CRUDS[(ci + (j_ % 2)) % len(CRUDS)],) + e[4:] for j_, e in enumerate(entries)], "shared-routes-module"))
             k += 1
@@ -300,7 +308,7 @@ def main(tier, write_baseline=False):
                 return {"upsert_case": json.loads(json.dumps(c_)), "what": bad[0][1]}
         return None
 
-    refuted, s_inputs = run.confirm_or_undecide(refuted, lambda n: upsert_replay(n) if "upsert_routes" in n else struct_replay(n),
+    refuted, s_inputs = run.confirm_or_undecide(refuted, lambda n: upsert_replay(n) if ("upsert_routes" in n and "/structural/" not in n) else struct_replay(n),
                                                 is_rule=lambda n: "/structural/" in n or "upsert_routes" in n)
     if write_baseline:
         common.write_baseline("C16", [n for n, o in run.obligations.items() if o["status"] == "proved"])
